@@ -192,6 +192,13 @@ static void ref_split(const char *s, unsigned flags, struct refc *r)
 }
 
 /* ------------------------------------------------------------------ */
+/* ASan's default 256 MB free-quarantine makes every allocation touch fresh
+ * pages (20-100x slower here); a small quarantine still traps use-after-free of
+ * recently freed blocks, which is all a single parse/join can produce.
+ * ASAN_OPTIONS from ./check only adds to these defaults. */
+const char *__asan_default_options(void);
+const char *__asan_default_options(void) { return "quarantine_size_mb=2:thread_local_quarantine_size_kb=64"; }
+
 static long live0;
 static void quiet(int sev, const char *msg) { (void)sev; (void)msg; }
 static void init(void) { mcx_alloc_install(); event_set_log_callback(quiet); }
@@ -297,23 +304,28 @@ static const char *G_HOST[] = {
 	"unix:/s:", "unix:s:", "unix::", "unix:", "unix:/a/b.sock:", "unix", "xunix:/s:",
 };
 static const char *G_PORT[] = { "", ":", ":0", ":80", ":65535", ":65536", ":08", ":8x" };
-static const char *G_PATH[] = { "", "/", "/p", "/a/b", "/a//b", "//x", "p", "p/q", "p:q", "./p:q", "/%41", "/%4", "/a b", "/p[]" };
-static const char *G_QUERY[] = { NULL, "", "q", "a=b&c=d", "q?r/", "%41", "%", "a b" };
-static const char *G_FRAG[] = { NULL, "", "f", "f?/", "f#g", "%4", "a b" };
+/* the first Q_* entries of these three form the smaller quick-tier product (-P gsub=1) */
+static const char *G_PATH[] = { "", "/", "/p", "p", "//x", "p:q", "/a b", "/%4", "/a//b", "/a/b", "p/q", "./p:q", "/%41", "/p[]" };
+static const char *G_QUERY[] = { NULL, "", "q", "a b", "%", "a=b&c=d", "q?r/", "%41" };
+static const char *G_FRAG[] = { NULL, "", "f#g", "a b", "f", "f?/", "%4" };
+#define Q_PATH 9
+#define Q_QUERY 5
+#define Q_FRAG 4
+static int n_path, n_query, n_frag;
 #define N(a) ((int)(sizeof(a) / sizeof((a)[0])))
 #define G_NAUTH (1 + N(G_USER) * N(G_HOST) * N(G_PORT))
 
 static uint64_t gram_count(void)
 {
-	return (uint64_t)N(G_SCHEME) * G_NAUTH * N(G_PATH) * N(G_QUERY) * N(G_FRAG);
+	return (uint64_t)N(G_SCHEME) * G_NAUTH * n_path * n_query * n_frag;
 }
 
 static void item_gram(uint64_t i)
 {
 	char s[256]; uint64_t x = i; size_t o = 0;
-	int fr = (int)(x % N(G_FRAG)); x /= N(G_FRAG);
-	int qu = (int)(x % N(G_QUERY)); x /= N(G_QUERY);
-	int pa = (int)(x % N(G_PATH)); x /= N(G_PATH);
+	int fr = (int)(x % n_frag); x /= n_frag;
+	int qu = (int)(x % n_query); x /= n_query;
+	int pa = (int)(x % n_path); x /= n_path;
 	int au = (int)(x % G_NAUTH); x /= G_NAUTH;
 	int sc = (int)x;
 	o += (size_t)snprintf(s + o, sizeof s - o, "%s", G_SCHEME[sc]);
@@ -430,6 +442,7 @@ static void item_set(uint64_t i)
 			{ "userinfo-without-host", b.s[C_USERINFO] && !auth, BIT(C_USERINFO), 0 },
 			{ "port-dropped-with-unixsocket", b.s[C_UNIX] && b.port >= 0, BIT(C_PORT), 0 },
 			{ "host-dropped-with-unixsocket", b.s[C_UNIX] && b.s[C_HOST], BIT(C_HOST), 0 },
+			{ "relative-path-with-unixsocket", b.s[C_UNIX] && path[0] && path[0] != '/', BIT(C_PATH), 1 },
 			{ "unixsocket-with-colon", b.s[C_UNIX] && strchr(b.s[C_UNIX], ':'), BIT(C_UNIX) | BIT(C_PATH) | BIT(C_QUERY) | BIT(C_FRAG), 1 },
 			{ "path-double-slash-without-authority", !auth && path[0] == '/' && path[1] == '/',
 			  BIT(C_USERINFO) | BIT(C_HOST) | BIT(C_UNIX) | BIT(C_PORT) | BIT(C_PATH), 1 },
@@ -483,6 +496,8 @@ int main(int argc, char **argv)
 		if (str_maxlen < 0 || str_maxlen > 9) { fprintf(stderr, "c28: bad len\n"); return 2; }
 		cfg.n_items = count_strings(NALPHA, str_maxlen); cfg.item = item_str;
 	} else if (!strcmp(dom, "gram")) {
+		int sub = atoi(argp(argc, argv, "gsub", "0"));
+		n_path = sub ? Q_PATH : N(G_PATH); n_query = sub ? Q_QUERY : N(G_QUERY); n_frag = sub ? Q_FRAG : N(G_FRAG);
 		cfg.n_items = gram_count(); cfg.item = item_gram;
 	} else if (!strcmp(dom, "set")) {
 		cfg.n_items = set_count(); cfg.item = item_set;
